@@ -427,6 +427,7 @@ theorem modifierName_plain (s s' : Sim) (c : Callable) (hc : ∀ k, c ≠ .pipel
   | named n => rfl
   | method o f => rfl
   | func n => rfl
+  | object c => rfl
 
 /-- the names line up: the resource a modifier is registered under is among the dependencies
 `on_post_setup` computes for that pipeline (so the edge modifier → value exists); for a `Pipeline` object
